@@ -145,25 +145,6 @@ where
             return Err(ast_validation.errors().to_owned());
         }
         let ast = ast_validation.ast();
-        // Check that StorageT is big enough to hold RIdx/PIdx/SIdx/TIdx values; after these
-        // checks we can guarantee that things like RIdx(ast.rules.len().as_()) are safe.
-        if ast.rules.len() > num_traits::cast(StorageT::max_value()).unwrap() {
-            panic!("StorageT is not big enough to store this grammar's rules.");
-        }
-        if ast.tokens.len() > num_traits::cast(StorageT::max_value()).unwrap() {
-            panic!("StorageT is not big enough to store this grammar's tokens.");
-        }
-        if ast.prods.len() > num_traits::cast(StorageT::max_value()).unwrap() {
-            panic!("StorageT is not big enough to store this grammar's productions.");
-        }
-        for p in &ast.prods {
-            if p.symbols.len() > num_traits::cast(StorageT::max_value()).unwrap() {
-                panic!(
-                    "StorageT is not big enough to store the symbols of at least one of this grammar's productions."
-                );
-            }
-        }
-
         let mut rule_names: Vec<(String, Span)> = Vec::with_capacity(ast.rules.len() + 1);
 
         // Generate a guaranteed unique start rule name. We simply keep making the string longer
@@ -203,6 +184,45 @@ where
                 }
             }
         };
+
+        // Check that StorageT is big enough to hold RIdx/PIdx/SIdx/TIdx values, including the
+        // lengths `rules_len`, `tokens_len` and `prods_len`, which count the rules, the EOF token
+        // and the productions we add ourselves; after these checks we can guarantee that things
+        // like RIdx(rule_names.len().as_()) are safe.
+        let max_len: usize = num_traits::cast(StorageT::max_value()).unwrap();
+        // At this point `rule_names` holds exactly the rules we add ourselves.
+        if rule_names.len() + ast.rules.len() > max_len {
+            panic!("StorageT is not big enough to store this grammar's rules.");
+        }
+        // The EOF token is added to the user's tokens.
+        if ast.tokens.len() + 1 > max_len {
+            panic!("StorageT is not big enough to store this grammar's tokens.");
+        }
+        // We add one production for the start rule and, if there are implicit tokens, one for
+        // the intermediate start rule, one per implicit token, and an empty one.
+        let extra_prods = match (&implicit_rule, &ast.implicit_tokens) {
+            (Some(_), Some(implicit_tokens)) => implicit_tokens.len() + 3,
+            _ => 1,
+        };
+        if ast.prods.len() + extra_prods > max_len {
+            panic!("StorageT is not big enough to store this grammar's productions.");
+        }
+        for p in &ast.prods {
+            let mut len = p.symbols.len();
+            if implicit_rule.is_some() {
+                // Each token will be followed by a reference to the implicit rule.
+                len += p
+                    .symbols
+                    .iter()
+                    .filter(|sym| matches!(sym, ast::Symbol::Token(..)))
+                    .count();
+            }
+            if len > max_len {
+                panic!(
+                    "StorageT is not big enough to store the symbols of at least one of this grammar's productions."
+                );
+            }
+        }
 
         for (
             k,
